@@ -38,7 +38,9 @@ def elsOf (l : Line) (k : String) : Option (List Element) := (l.inStr k).bind (p
 
 def handle (l : Line) : Option Verdict :=
   match l.op with
-  | "schema_build" => some <|
+  -- `schema_file`: the same element list written as the footer of a file (no row groups) and opened through
+  -- carquet_reader_open_buffer - footer parser, its limits and build_schema together (harness/ops_schema.c)
+  | "schema_build" | "schema_file" => some <|
     match elsOf l "els" with
     | none => .bad "els"
     | some els =>
